@@ -565,6 +565,60 @@ def r10_borrowed_relations_complete(ctx, res):
     r2_nullness(ctx, res)
 
 
+def reported_parents_unfiltered(ctx, res, prefix='reported-parent'):
+    """an element may hang on a parent of ANOTHER lexicon - the sense an extension adds belongs to a synset of its base, an
+    external entry's sense to a base entry: a row that is in scope stays in the result whatever lexicon its parent is in.  So an
+    occurrence that is the foreign-key parent of a row of the result and is joined only to report its id (the synset id of a
+    target sense, the entry id of a sense) carries NO lexicon filter; filtering it drops in-scope rows when only the child's
+    lexicon is selected."""
+    from .. import scoping as SC
+    schema = ctx.schema
+    n = 0
+    seen = set()
+    for s in ctx.sites:
+        if s.func.module.short != '_queries':
+            continue
+        for v in s.variants:
+            st = v.stmt
+            if st is None or st.verb != 'SELECT':
+                continue
+            st.lexicon_filters(schema)
+            eqs = SC._eq_predicates(st)
+            real = [o for o in st.occs if o.kind == 'table' and o.table in schema.tables]
+            for o in real:
+                for sc, left, right, conj, pos in eqs:
+                    for a, b in ((left, right), (right, left)):
+                        if '.' not in a or '.' not in b:
+                            continue
+                        qa, ca = a.split('.', 1)
+                        qb, cb = b.split('.', 1)
+                        if qa != o.alias or ca != 'rowid':
+                            continue
+                        ob = next((x for x in real if x.alias == qb and x.scope == sc), None)
+                        if ob is None or ob is o or not any(fk.table == ob.table and fk.column == cb and fk.ref_table == o.table for fk in schema.fks):
+                            continue
+                        if not SC._only_reports_id(st, schema, o, [x for x in real if x.scope == o.scope]):
+                            continue
+                        sig = (s.func.name, o.alias, ob.alias, cb, tuple(o.filters))
+                        if sig in seen:
+                            continue
+                        seen.add(sig)
+                        n += 1
+                        key = f'{prefix}:{s.func.name}:{o.table} AS {o.alias}<-{ob.alias}.{cb}'
+                        res.inst(key, s.loc, f'filters: {list(o.filters)}')
+                        if o.filters:
+                            res.find(key, s.loc,
+                                     f'{s.func.name} joins {o.table} AS {o.alias} only to report the id of the parent of {ob.alias} '
+                                     f'({ob.alias}.{cb}) but restricts it to the lexicon scope ({list(o.filters)}): a row of {ob.table} '
+                                     f'whose parent lives in another lexicon (an extension\'s sense on a base synset) is dropped when only '
+                                     f'its own lexicon is selected')
+    if n < 4:
+        raise AnalysisError(f'only {n} reported-parent joins found in wn/_queries.py')
+
+
+def r11_reported_parents_unfiltered(ctx, res):
+    reported_parents_unfiltered(ctx, res)
+
 RULES = [
     ('C11-R1', r1_termination, 6),
     ('C11-R2', r2_sibling_relation_queries, 10),
@@ -576,4 +630,5 @@ RULES = [
     ('C11-R8', r8_iter_relations_unconditional, 1),
     ('C11-R9', r9_relation_names_exist, 6),
     ('C11-R10', r10_borrowed_relations_complete, 10),
+    ('C11-R11', r11_reported_parents_unfiltered, 4),
 ]
